@@ -147,6 +147,8 @@ type Stmt struct {
 	// (len(Args)+1 entries); default is a single blank.
 	Sep []string
 	ID  int // unique statement id (for evidence / debugging)
+	// MarkupFault marks a line whose literal text is malformed markup: showing it must fail.
+	MarkupFault bool
 	// ExprLay, when set, overrides how the expressions of this statement are printed
 	// (parenthesisation, spellings, blanks); everything else follows the file's layout.
 	ExprLay *Layout
